@@ -85,6 +85,14 @@ def sv_program(rng):
         a, b = rng.sample(atoms, 2) if len(atoms) >= 2 else (atoms[0], atoms[0])
         if a["end"] <= b["start"]:
             lines.append(f"{b['name']}.start >= {a['name']}.end;")
+    # strict relations true in the plant: `a` (earlier) begins strictly before `b` (later, same instance) has finished, so
+    # a cannot follow b - when the search tries that order the times differ by an infinitesimal only
+    same = [(a, b) for a in atoms for b in atoms if a is not b and a["inst"] == b["inst"] and a["end"] <= b["start"] and b["end"] > b["start"] and a["end"] > a["start"]]
+    for _ in range(2 if same and rng.random() < 0.5 else 0):
+        a, b = rng.choice(same)
+        lines.append(f"{a['name']}.start < {b['name']}.end;")
+        if rng.random() < 0.5:
+            lines.append(f"{b['name']}.start > {a['name']}.start;")
     return "\n".join(lines) + "\n", {"kind": "sv", "sv_names": insts, "atoms": atoms}
 
 
